@@ -1051,9 +1051,10 @@ static void build_expr(WorkList *list, ASTNode *expr, Environment *env) {
                             emit_literal(list, "({ assert(false && \"unary minus requires array<int> or array<float>\"); (DynArray*)0; })");
                         }
                     } else {
-                        emit_literal(list, "(-");
+                        /* "(-" followed by a negative literal or another negation would read "--x" in C */
+                        emit_literal(list, "(-(");
                         build_expr(list, expr->as.prefix_op.args[0], env);
-                        emit_literal(list, ")");
+                        emit_literal(list, "))");
                     }
                 }
             }
